@@ -177,9 +177,15 @@ func (m *Member) intersectedView(topic topic, topicHex string, tpv *topicPeerVie
 
 	views := make(views)
 
+	// Our own view is built from the keys of the very same pass that collects the announced views:
+	// computing it in a second pass would count a member whose announcement arrived in between,
+	// without its announced view ever having been compared.
+	myView := intSlice{m.ID}
+
 	memberToView := tpv.memberToView
-	memberToView.Range(func(_, v interface{}) bool {
+	memberToView.Range(func(k, v interface{}) bool {
 		members = v.([]uint16)
+		myView = append(myView, k.(uint16))
 		views[view{
 			content: fmt.Sprintf("%v", members),
 			size:    len(members),
@@ -187,7 +193,7 @@ func (m *Member) intersectedView(topic topic, topicHex string, tpv *topicPeerVie
 		return true
 	})
 
-	myView := m.myMemberViewSorted(topic)
+	sortIntSlice(myView)
 	views[view{
 		size:    len(myView),
 		content: fmt.Sprintf("%v", myView),
